@@ -54,7 +54,7 @@ fn main() {
 
     engine::panic_hook::install(std::env::var("VERIF_VERBOSE").is_ok());
     rayon::ThreadPoolBuilder::new()
-        .num_threads(engine::SHARDS)
+        .num_threads(if std::env::var("VERIF_JOURNAL").is_ok() { 1 } else { engine::SHARDS })
         .stack_size(16 << 20)
         .build_global()
         .ok();
